@@ -705,6 +705,14 @@ def rd_post(I, outcome, ctx):
         code = e.args[2]
         if z3.is_int_value(code.t) and code.t.as_long() == 400:
             I.oblige('rejected_message_releases_the_parser', z3.Not(has_parser), detail='a rejected message leaves no parser state behind')
+    if tags in (['httperror'], ['redirect']):
+        # C15 "on a kept-alive connection each further request is answered correctly": a message that is answered here must not
+        # leave its (finished) parser in charge of a connection that stays open - the next request would be fed to it and answered
+        # with the old outcome again.  Either the parser is released or the response closes the connection.
+        res_ = fired[0].args[1] if len(fired[0].args) > 1 and isinstance(fired[0].args[1], VRef) else None
+        closes_ = I.fz(res_, 'close') if res_ is not None else z3.BoolVal(False)
+        I.oblige('answered_message_leaves_no_parser_on_a_connection_that_stays_open', z3.Or(z3.Not(has_parser), closes_),
+                 detail='%s fired for this message, its parser stays in _buffers[sock] and the response does not close the connection' % tags[0])
     if tags == ['close']:
         cover(I, 'tls_hello')
         I.oblige('tls_hello_releases_everything', z3.And(z3.Not(has_parser), z3.Not(z3.Select(I.field(self, '_clients').dom, sock.t))))
@@ -722,7 +730,41 @@ def rd_post(I, outcome, ctx):
         cover(I, 'wait')
 
 
+def errors_force_close():
+    """STRUCTURAL fact read off circuits/web/errors.py on every run: httperror.__init__ executes `self.response.close = True` at the
+    top level of its body (unconditionally, before anything that can be skipped) and redirect.__init__ reaches it through
+    super().__init__(...) at the top level of its body.  HTTP._on_read relies on it where it answers a message WITHOUT releasing the
+    parser (the path-sanitising redirect): the connection is closed, so the stale parser never sees another request."""
+    import ast as _ast
+    from pyvc import contract as _c
+    try:
+        mod = _c.ModInfo('circuits/web/errors.py')
+        he, _ = mod.find('httperror.__init__')
+        rd, _ = mod.find('redirect.__init__')
+    except Exception:
+        return False
+    top_close = any(isinstance(st, _ast.Assign) and _ast.unparse(st.targets[0]) in ('self.response.close', 'response.close')
+                    and isinstance(st.value, _ast.Constant) and st.value.value is True for st in he.body)
+    top_super = any(isinstance(st, _ast.Expr) and isinstance(st.value, _ast.Call) and _ast.unparse(st.value.func) == 'super().__init__'
+                    for st in rd.body)
+    return top_close and top_super
+
+
+def ev_error(tag):
+    def f(I, r, a, k):
+        if len(a) >= 2 and isinstance(a[1], VRef):
+            if errors_force_close():
+                I.st.write_field(a[1].t, 'close', VBool(True))
+                I.st.notes.append('%s(...): response.close = True (structural fact about errors.py, see errors_force_close)' % tag)
+            else:
+                fresh = core.fresh('close_after_' + tag, z3.BoolSort())
+                I.st.write_field(a[1].t, 'close', VBool(fresh))
+        return VCons(tag, a, k)
+    return f
+
+
 READ_CALLS = dict(EVS)
+READ_CALLS.update({'httperror': ev_error('httperror'), 'redirect': ev_error('redirect')})
 READ_CALLS.update({
     'self.fire': s_fire, 'HttpParser': s_HttpParser, 'is_ssl_handshake': uf('is_ssl_handshake', Bool), 'parser.execute': s_execute,
     'parser.is_headers_complete': lambda I, r, a, k: VBool(I.fz(r, 'G_headers_complete')),
@@ -882,6 +924,10 @@ for _s in list(SPECS):
     if getattr(_s, 'name', '') == 'HTTP._on_read' and _s.prop == 'C14':
         _c = _copy.copy(_s)
         _c.prop = 'C13'
+        SPECS.append(_c)
+        # ... and under C15 (keep-alive clause: a message answered here leaves no parser behind on a connection that stays open)
+        _c = _copy.copy(_s)
+        _c.prop = 'C15'
         SPECS.append(_c)
 
 
